@@ -476,6 +476,24 @@ func runC16Commit(c c16Commit) (out ev.Outcome) {
 		out.Err, out.Sig = fmt.Errorf("edited decommitment (%s at %d) still verifies", c.Edit, i), "edit-accepted"
 		return out
 	}
+	// the same OBJECT that already verified and opened once, with its exported fields reassigned (and a struct
+	// copy of it): a check must never be remembered
+	reused := cd
+	reused.D = D
+	if reused.Verify() {
+		out.Err, out.Sig = fmt.Errorf("an object that verified once still verifies after its decommitment was edited (%s at %d)", c.Edit, i), "edit-accepted-reused-object"
+		return out
+	}
+	if ok, vals := reused.DeCommit(); ok || vals != nil {
+		out.Err, out.Sig = fmt.Errorf("an object that opened once still opens after its decommitment was edited (%s at %d)", c.Edit, i), "edit-accepted-reused-object"
+		return out
+	}
+	cpy := *cd
+	cpy.C = add(cd.C, 1)
+	if cpy.Verify() {
+		out.Err, out.Sig = fmt.Errorf("a copy of an object that verified once still verifies after its commitment value was changed"), "edit-accepted-reused-object"
+		return out
+	}
 	if ok, vals := ed.DeCommit(); ok || vals != nil {
 		out.Err, out.Sig = fmt.Errorf("DeCommit of an edited decommitment returned ok=%v vals=%v", ok, vals), "edit-decommit"
 		return out
